@@ -16,6 +16,8 @@ func cmpFn(kind string) func(a, b *mlrval.Mlrval) int {
 		return mlrval.NumericAscendingComparator
 	case "fold":
 		return mlrval.CaseFoldAscendingComparator
+	case "nat":
+		return mlrval.NaturalAscendingComparator
 	}
 	return nil
 }
@@ -36,6 +38,12 @@ func init() {
 
 func genC09(r *rng, thorough bool) {
 	// comparators: all pairs of the pool against the model, all triples for the preorder laws
+	natPool := append([]string{"a1", "a01", "a2b", "a2", "file10.txt", "file9.txt", "01", "99999999999999999999", "99999999999999999998", "x\xc3\xa9y2", "-", "a"}, c09Pool...)
+	for _, a := range natPool {
+		for _, b := range natPool {
+			gen("cmp nat " + hx(a) + " " + hx(b))
+		}
+	}
 	for _, k := range []string{"lex", "num", "fold"} {
 		for _, a := range c09Pool {
 			for _, b := range c09Pool {
@@ -59,6 +67,23 @@ func genC09(r *rng, thorough bool) {
 		n = 8000
 	}
 	flagKinds := [][]string{{"-f"}, {"-r"}, {"-nf"}, {"-nr"}, {"-n"}, {"-c"}, {"-c", "-r"}, {"-t"}, {"-t", "-r"}, {"-n", "-r"}, {"-n", "-f"}}
+	natVals := []string{"", "", "a1", "a2", "a10", "a9", "b", "file10.txt", "file9.txt", "10", "9", "x2y", "x10y"}
+	for i := 0; i < n/3; i++ {
+		// natural-order keys first, with empties and ties, then a secondary key
+		nr := 2 + r.intn(10)
+		var rs []record
+		for j := 0; j < nr; j++ {
+			rs = append(rs, record{{"a", r.pick(natVals)}, {"b", r.pick([]string{"1", "2", "3", "10", "-1", ""})}, {"id", strconv.Itoa(j)}})
+		}
+		argv := append([]string{"sort"}, r.pick([]string{"-t", "-tr"}))
+		if argv[1] == "-tr" {
+			argv = []string{"sort", "-t", "-r"}
+		}
+		argv = append(argv, "a")
+		argv = append(argv, flagKindsOf(r)...)
+		argv = append(argv, "b")
+		gen("sortv " + joinFlags(argv) + " " + encodeRecords(rs))
+	}
 	for i := 0; i < n; i++ {
 		nr := r.intn(14)
 		if r.chance(1, 10) {
@@ -85,6 +110,11 @@ func genC09(r *rng, thorough bool) {
 		}
 		gen("sortv " + joinFlags(argv) + " " + encodeRecords(rs))
 	}
+}
+
+func flagKindsOf(r *rng) []string {
+	ks := [][]string{{"-f"}, {"-r"}, {"-nf"}, {"-nr"}, {"-c"}, {"-t"}}
+	return ks[r.intn(len(ks))]
 }
 
 func init() {
@@ -123,7 +153,7 @@ func init() {
 		if thorough {
 			n = 3000
 		}
-		pool := []string{"1", "2", "10", "-3", "-3.5", "0", "1.5", "0.5", "100", "1e2", "abc", "ABC", "Abc", "abd", "", "b", "B", "a10", "a9", "xyz", "16", "0x10"}
+		pool := []string{"1", "2", "10", "-3", "-3.5", "0", "1.5", "0.5", "100", "1e2", "abc", "ABC", "Abc", "abd", "", "b", "B", "a10", "a9", "xyz", "16", "0x10", "a2", "file10", "file9"}
 		for i := 0; i < n; i++ {
 			k := r.intn(9)
 			var items []string
